@@ -449,6 +449,11 @@ theorem good_step (s : State) (op : Op) (h : Good s) (hg : Guard s op)
   | setAttr x =>
     simp only [step, Op.target]
     split <;> exact h
+  | setBlocks x ks =>
+    simp only [step, Op.target]
+    split
+    · exact h
+    · exact ⟨(sameTree_blocks s _).inv h.inv, fresh_of_step (sameTree_blocks s _) (fun g c => c.congr (sameTree_blocks s _) rfl) h.fresh⟩
   | observe o => exact ⟨(observe_same s o).inv h.inv, fresh_observe o h.fresh⟩
 
 theorem good_run (s : State) (ops : List Op) (h : Good s) (hg : Guarded .current s ops) :
